@@ -212,7 +212,9 @@ class HamiltonianChain(MarkovChain):
         )
 
     def finite_diff(self, t: ndarray) -> ndarray:
-        p = self.posterior(t) * self.inv_temp
+        # the gradient of the log-posterior itself: the temperature is applied by
+        # the leapfrog integrators, as it is for a user-supplied gradient function
+        p = self.posterior(t)
         G = zeros(self.n_parameters)
         # the step is relative to the size of each coordinate, but never smaller
         # than the same fraction of the typical displacement in one leapfrog
@@ -228,7 +230,7 @@ class HamiltonianChain(MarkovChain):
         for i in range(self.n_parameters):
             t_new = t.copy()
             t_new[i] += dt[i]
-            G[i] = (self.posterior(t_new) * self.inv_temp - p) / (t_new[i] - t[i])
+            G[i] = (self.posterior(t_new) - p) / (t_new[i] - t[i])
         return G
 
     def get_last(self) -> ndarray:
